@@ -908,10 +908,9 @@ fn parse_simple_selector_component(text: &str) -> IResult<&str, SelectorComponen
             tuple((skip_optional_whitespace, tag(">"), skip_optional_whitespace)),
             |_| SelectorComponent::CombChild,
         ),
-        map(
-            tuple((skip_optional_whitespace, tag("*"), skip_optional_whitespace)),
-            |_| SelectorComponent::Star,
-        ),
+        // Whitespace around "*" is a descendant combinator like anywhere
+        // else, so it mustn't be swallowed here.
+        map(tag("*"), |_| SelectorComponent::Star),
         map(parse_ws, |_| SelectorComponent::CombDescendant),
         parse_class,
         parse_hash,
